@@ -23,6 +23,22 @@ DecodeWhy(e) ==
   ELSE IF e.ty \in {"U", "I"} /\ ~ReprOK(e.out.v.int, e.out.v.repr) THEN "decoded-repr-not-canonical"
   ELSE ""
 
+BytesWhy(e) ==
+  LET r == e.res.v IN
+  IF e.res.k # "ok" THEN "unexpected-panic"
+  ELSE IF r.be # Reverse(r.le) THEN "be-bytes-not-the-reverse-of-le-bytes"
+  ELSE IF ~SameInt(r.back_le, e.val) \/ ~SameInt(r.back_be, e.val) THEN "bytes-roundtrip-differs"
+  ELSE IF e.ty = "U" /\ r.le # e.val.m THEN "unsigned-bytes-not-the-base-256-digits"
+  ELSE IF e.ty = "I" /\ ~IEq(FromBytesI(r.le), e.val) THEN "signed-bytes-not-twos-complement-of-the-value"
+  ELSE ""
+FromBytesWhy(e) ==
+  LET r == e.res.v IN
+  IF e.res.k # "ok" THEN "unexpected-panic"
+  ELSE IF ~SameInt(r.u_le, FromBytesU(e.bin)) \/ ~SameInt(r.u_be, FromBytesU(e.bin)) THEN "unsigned-from-bytes-wrong"
+  ELSE IF ~SameInt(r.i_le, FromBytesI(e.bin)) THEN "signed-from-le-bytes-wrong"
+  ELSE IF ~SameInt(r.i_be, FromBytesI(e.bin)) THEN "signed-from-be-bytes-wrong"
+  ELSE ""
+
 \* cross-configuration agreement
 FormMap(outs) ==
   LET pairs == UNION {{<<outs[g].forms[i], outs[g].out>> : i \in 1..Len(outs[g].forms)} : g \in 1..Len(outs)}
@@ -36,6 +52,8 @@ XcfgWhy(e) == IF \A i, j \in 1..Len(e.evs) : EvAgree(e.evs[i], e.evs[j]) THEN ""
 
 Why(e) == CASE e.op = "serde" -> SerdeWhy(e)
             [] e.op \in {"decode", "decode_json"} -> DecodeWhy(e)
+            [] e.op = "bytes" -> BytesWhy(e)
+            [] e.op = "frombytes" -> FromBytesWhy(e)
             [] e.op = "xcfg" -> XcfgWhy(e)
 
 VARIABLES l, bad
